@@ -23,6 +23,7 @@ LIB = {
  "C14": ("two run classes: the real chunked DIMACS parser over a simulated Read with every chunk boundary / short reads on generated layouts (comments, line breaks and comments inside clauses, tabs, CR LF, missing final newline): the parsed formula must equal the written one; and the real binary end to end: verdict against a truth-table reference, the v line satisfies every clause, and with --proof-path the proof passes an independent forward RUP check ending in the empty clause (files padded so that the 8 KiB buffer boundary lands inside the body)", "§6 C14"),
  "C15": ("the real binary on generated WCNF files (unit / empty / duplicate soft clauses, soft clauses decided at the root or read before the hard clauses that decide them, weights up to 2^31-2) under both upper-bound encodings and seeded search flags: s OPTIMUM FOUND with the brute-force optimum in the last o line and a model of exactly that cost, s UNSATISFIABLE iff the hard clauses are unsatisfiable; a per-run wall-clock limit turns non-termination into a verdict", "§6 C15"),
  "C20": ("TwinRun: library cases executed twice in one process (trace id over every decision, solution, poll count and learned nogood must be equal) and the binary executed twice on the same CNF / WCNF / FlatZinc file with the same flags and seed under perturbed ambient conditions (fresh process: new hash-map keys and address layout, different environment size, allocator perturbation, different directory): stdout minus wall-clock statistics, the proof file and the literal-definition file must be byte-identical", "§6 C20"),
+ "C16": ("the magnitude swarm: every declared quantity (domain bounds, view images, right-hand sides, coefficients) fits 32 bits while sums and products do not (terms near 2^30 summing past 2^31, products of operands above 2^16, right-hand sides near the 32-bit limits, views with scale 2^15 / 2^16); linear <=, =, !=, times, division, absolute, maximum and element over such variables and views, solved under random schedules and compared with the i128 reference enumeration; the same units run on two builds of the same code - overflow checks on (any overflow is a panic, hence a violation) and off (the shipped wrap-around semantics must not change a result). Honest note: the quantifier is inputs only; the schedule matters (which intermediate bounds get multiplied) but the deciding ingredients are the generated magnitudes and the unbounded-arithmetic oracle", "§6 C16"),
  "C17": ("explanation tap (hook H1): every propagation's reason (eager at propagation time, lazy when evaluated, implicit-predicate reasons handed to conflict analysis) and every reported conflict is checked for truth of its facts in the state in which it is given and for sufficiency against the single tagged constraint by enumeration over its scope and the declared domains", "§6 C17"),
  "C19": ("stream simulation: generated step sequences (inferences with/without tag, label, conclusion, 0..n premises; nogoods with 0..n literals and absent / empty / non-empty hints; deletions; conclusion), literal-definition files and atomic constraints are written with the real ProofWriter / LiteralDefinitions::write into a simulated pipe that delivers bytes under a seeded schedule of short writes, short reads and retryable Interrupted errors, and read back with the real ProofReader / parser; sequences must be equal; atomics are negated twice. Honest note: above the std buffering layer the code is a pure function of its input, so the stream schedule is a thin dimension and the generated corner layouts carry most of the weight", "§6 C19"),
  "C18": ("decision tap (hook H3) while built-in branchers (11 x 14 selector matrix, default / alternating / dynamic / autonomous branchers) drive iterate-all runs: every proposal is undecided and over a variable of the brancher, None only when everything is fixed; plus termination and completeness of the enumeration", "§6 C18"),
@@ -49,7 +50,7 @@ def main():
     hooks_commit = subprocess.run(["git", "-C", "/repo", "log", "--format=%h", "--grep=^verif hooks"], capture_output=True, text=True).stdout.split()
     manifest = {
         "version": 1,
-        "setup_cmd": "cd /verif/sim && CARGO_NET_OFFLINE=true cargo build --release --offline && cd /repo && CARGO_NET_OFFLINE=true cargo build --offline -p pumpkin-solver --bin pumpkin-solver --target-dir /verif/target/cli",
+        "setup_cmd": "cd /verif/sim && CARGO_NET_OFFLINE=true cargo build --release --offline && cargo build --profile nochecks --offline && cd /repo && CARGO_NET_OFFLINE=true cargo build --offline -p pumpkin-solver --bin pumpkin-solver --target-dir /verif/target/cli",
         "hooks": {
             "guard": "cargo feature `verif-hooks` of pumpkin-solver (off by default)",
             "enable": "the simulator crate /verif/sim depends on /repo/pumpkin-solver with features = [\"verif-hooks\"]; the command-line binary used by the front-end checks is built without the feature",
